@@ -668,16 +668,14 @@ CONST_CONSTRUCTORS = {"np.zeros", "np.ones", "np.eye", "np.empty", "np.identity"
                       "sympy.eye", "np.array", "super().__init__", "LinearOperator.__init__", "BlockSeries"}
 LOSSY = {"np.round", "np.around", "np.rint", "np.floor", "np.ceil", "np.trunc", "np.fix", "np.real", "np.imag", "np.clip",
          "np.int64", "np.int32", "np.float32", "np.float16", "np.complex64", "np.nan_to_num", "np.real_if_close"}
-# (module, function qualname, construct text) -> reason
+# (module, function qualname, kind of conversion) -> reason.  Kinds: "astype(int)", "round", ".real", ".imag"
 LOSSY_EXEMPT = {
-    ("block_diagonalization", "block_diagonalize", "(np.abs(diagonal[i].reshape(-1, 1) - diagonal[i]) < atol).astype(int)"):
-        "boolean degeneracy mask turned into a 0/1 mask (exact)",
-    ("block_diagonalization", "block_diagonalize", "equal_eigs[block_idx].astype(int)"): "boolean mask to 0/1 (exact)",
-    ("linalg", "is_diagonal", "np.round(offdiagonal, int(-np.log10(atol)))"): "tolerance test of a predicate, not an element value",
-    ("linalg", "direct_greens_function.greens_function", "vec.real"): "real and imaginary parts are solved separately and recombined as re + i*im (E7.greens)",
-    ("linalg", "direct_greens_function.greens_function", "vec.imag"): "see vec.real",
-    ("block_diagonalization", "_group_close_energies", "energies.real"): "coordinates of complex energies for clustering",
-    ("block_diagonalization", "_group_close_energies", "energies.imag"): "coordinates of complex energies for clustering",
+    ("block_diagonalization", "block_diagonalize", "astype(int)"): "boolean degeneracy masks (equal_eigs) turned into 0/1 masks (exact)",
+    ("linalg", "is_diagonal", "round"): "tolerance test of a predicate, not an element value",
+    ("linalg", "direct_greens_function.greens_function", ".real"): "real and imaginary parts are solved separately and recombined as re + i*im (E7.greens)",
+    ("linalg", "direct_greens_function.greens_function", ".imag"): "see .real",
+    ("block_diagonalization", "_group_close_energies", ".real"): "coordinates of complex energies for clustering",
+    ("block_diagonalization", "_group_close_energies", ".imag"): "coordinates of complex energies for clustering",
 }
 
 
@@ -714,7 +712,15 @@ def rule_value_preserving(rep: Report, repo: Repo):
                 f = getattr(f, "_parent", None)
             q = qualname(f) if f is not None else "<module>"
             txt = norm(node)
-            key = (mod, q, txt)
+            kind = txt
+            if isinstance(node, ast.Attribute):
+                kind = "." + node.attr
+            elif isinstance(node, ast.Call) and isinstance(node.func, ast.Attribute) and node.func.attr == "astype":
+                kind = f"astype({', '.join(norm(a) for a in node.args)})"
+            elif isinstance(node, ast.Call) and (call_name(node) or "") in ("np.round", "np.around") or \
+                    (isinstance(node, ast.Call) and isinstance(node.func, ast.Attribute) and node.func.attr == "round"):
+                kind = "round"
+            key = (mod, q, kind)
             if key in LOSSY_EXEMPT:
                 rep.ok(R, f"{mod}::{q} {what} `{txt[:60]}` (exempt)", LOSSY_EXEMPT[key], repo.loc(mod, node))
             else:
@@ -724,3 +730,72 @@ def rule_value_preserving(rep: Report, repo: Repo):
     rep.count("E4.lossless.sites", n)
     if n == 0:
         raise AnalysisError(R, "no conversion site found at all (the inventory above lists the known exact ones)")
+
+
+# ---------------------------------------------------------------------------
+# loop-carried containers: per-iteration scratch state must be re-initialised per iteration
+# ---------------------------------------------------------------------------
+
+MUTATORS = {"append", "extend", "update", "add", "setdefault", "insert", "pop", "remove", "clear", "discard"}
+
+
+def rule_loop_carried_state(rep: Report, repo: Repo):
+    """A container that one loop iteration both fills and consumes as a whole is scratch state of that
+    iteration; if its only initialisation is outside the loop, what one iteration wrote leaks into the next."""
+    R = "E4.loop_state"
+    n_loops = n_pairs = 0
+    for mod, tree in repo.trees.items():
+        if mod in ("__init__", "algorithms"):
+            continue
+        for func in [n for n in ast.walk(tree) if isinstance(n, ast.FunctionDef)]:
+            inits = {}
+            for n in own_nodes(func):
+                if isinstance(n, ast.Assign) and isinstance(n.targets[0], ast.Name) and (
+                        isinstance(n.value, (ast.Dict, ast.List, ast.Set)) and not getattr(n.value, "keys", getattr(n.value, "elts", None))
+                        or (isinstance(n.value, ast.Call) and call_name(n.value) in ("dict", "list", "set", "defaultdict") and not n.value.args)):
+                    inits.setdefault(n.targets[0].id, []).append(n)
+            if not inits:
+                continue
+            for loop in [n for n in own_nodes(func) if isinstance(n, (ast.For, ast.While))]:
+                n_loops += 1
+                body_nodes = [x for s in loop.body for x in [s, *own_nodes(s)]]
+                for name, init_nodes in inits.items():
+                    mutated = consumed = None
+                    for x in body_nodes:
+                        if isinstance(x, ast.Assign):
+                            for t in x.targets:
+                                if isinstance(t, ast.Subscript) and isinstance(t.value, ast.Name) and t.value.id == name:
+                                    mutated = x
+                        if isinstance(x, ast.AugAssign) and isinstance(x.target, ast.Subscript) and isinstance(x.target.value, ast.Name) \
+                                and x.target.value.id == name:
+                            mutated = x
+                        if isinstance(x, ast.Call) and isinstance(x.func, ast.Attribute) and x.func.attr in MUTATORS \
+                                and isinstance(x.func.value, ast.Name) and x.func.value.id == name:
+                            mutated = x
+                        if isinstance(x, ast.Name) and x.id == name and isinstance(x.ctx, ast.Load):
+                            p = getattr(x, "_parent", None)
+                            whole = True
+                            if isinstance(p, ast.Subscript) and p.value is x:
+                                whole = False
+                            if isinstance(p, ast.Attribute) and p.value is x:
+                                whole = False  # method call on it / attribute
+                            if isinstance(p, ast.Compare):
+                                whole = False  # membership test
+                            if whole:
+                                consumed = x
+                    if mutated is None or consumed is None:
+                        continue
+                    n_pairs += 1
+                    inside = any(any(i is x for x in body_nodes) for i in init_nodes)
+                    q = qualname(func)
+                    inst = f"{mod}::{q} container `{name}` is filled and consumed inside the loop `{norm(loop.target) if isinstance(loop, ast.For) else 'while'}`"
+                    if inside:
+                        rep.ok(R, inst + " and re-initialised per iteration", "", repo.loc(mod, mutated))
+                    else:
+                        rep.fail(R, f"{mod}::{q} per-iteration container `{name}` is initialised outside the loop that fills and consumes it",
+                                 f"`{norm(init_nodes[0])}` is executed once; entries written while processing one item are still present "
+                                 f"when `{norm(getattr(consumed, '_parent', consumed))[:60]}` consumes it for the next item", repo.loc(mod, init_nodes[0]))
+    rep.count("E4.loop_state", {"loops": n_loops, "filled_and_consumed": n_pairs})
+    rep.floor(R, "loops inspected", n_loops, 15)
+    if n_pairs == 0:
+        raise AnalysisError(R, "no per-iteration container found at all (expected at least NumberOrderedForm._multiply_expr::replacements)")
